@@ -18,6 +18,8 @@ def a_text(an, k):
         return "0" if k % 2 else "0.0"
     if an == 1000:
         return "1" if k % 2 else "1.0"
+    if k % 7 == 2:
+        return ("%.1f" % (an / 10)).rstrip("0").rstrip(".") + "%"        # percentage form: 1% = 0.01, 0.5% = 0.005, 50% = 0.5
     s = ("%.3f" % (an / 1000)).rstrip("0")
     return s[1:] if (k % 5 == 0 and s.startswith("0.")) else s
 
@@ -26,7 +28,7 @@ def specs_for(t, rnd):
     out = []
     n = 500 if t == "quick" else 25000
     lattice = [v for v in range(0, 256, 8)] + [255]
-    alphas = [0, 1, 10, 250, 500, 750, 990, 999, 1000]
+    alphas = [0, 1, 5, 10, 250, 500, 750, 990, 999, 1000]
     hist = []   # some texts are reused over different backgrounds (history / caching must not matter)
     for k in range(n):
         an = rnd.choice(alphas) if rnd.random() < 0.6 else rnd.randrange(1001)
@@ -60,6 +62,16 @@ def specs_for(t, rnd):
         if k % 9 == 0:       # translucent background: goes over white
             ban = rnd.choice([0, 300, 500, 900, rnd.randrange(1001)])
             bg_in = rnd.choice([f"rgba({bgv[0]}, {bgv[1]}, {bgv[2]}, {a_text(ban, k)})", (bgv[0], bgv[1], bgv[2], ban / 1000)])
+            if k % 18 == 0:
+                # hsla() background (whole degrees / percent, no rounding tie), fully transparent ones included
+                for _try in range(20):
+                    hh, ss, ll = rnd.randrange(360), rnd.randrange(101), rnd.randrange(101)
+                    rb = refs.css_read_opaque(f"hsl({hh}, {ss}%, {ll}%)")
+                    if rb:
+                        bgv = rb
+                        ban = rnd.choice([0, 0, 500, 1000, ban])
+                        bg_in = fn_variant("hsla", [str(hh), f"{ss}%", f"{ll}%", a_text(ban, k + _try)], k)
+                        break
         kind = k % 3
         if k % 13 == 5:
             fg = tuple(rnd.choice((0, 1)) for _ in range(3)) if rnd.random() < 0.7 else tuple(rnd.choice((0, 1, 2, 255)) for _ in range(3))
